@@ -153,10 +153,10 @@ class Reader:
                 self.meta["fileTimeSecs"] = ftsec
         else:
             if self.nc * self.ns * self.dtype.itemsize != self.nbytes:
+                # only complete sample frames count: a trailing partial frame (interrupted write) can't be mapped
                 ftsec = (
                     self.file_bin.stat().st_size
-                    / self.dtype.itemsize
-                    / self.nc
+                    // (self.dtype.itemsize * self.nc)
                     / self.fs
                 )
                 if self.meta is not None:
